@@ -5,16 +5,22 @@
 use crate::rng::Rng;
 use crate::tygen::{Def, Module};
 
-pub const KINDS: usize = 13;
+pub const KINDS: usize = 15;
 
 /// `(tag, items)`; `items` goes inside the bridge module
 pub fn extras(rng: &mut Rng, m: &Module, option: bool) -> (String, String) {
+    extras_with(rng, m, option, None)
+}
+
+/// as `extras`, the first snippet being of kind `forced` (so that a run of `KINDS` modules meets every kind)
+pub fn extras_with(rng: &mut Rng, m: &Module, option: bool, forced: Option<usize>) -> (String, String) {
     let opaque = m.types.iter().find(|t| matches!(t.def, Def::Opaque)).map(|t| t.name.clone()).unwrap_or("OpA".into());
     let enm = m.types.iter().find(|t| matches!(t.def, Def::Enum { .. })).map(|t| t.name.clone());
     let n = 1 + rng.below(3);
     let mut items: Vec<(&'static str, String)> = vec![];
-    for _ in 0..n {
-        let k = rng.below(KINDS);
+    for j in 0..n {
+        let r = rng.below(KINDS);
+        let k = match forced { Some(f) if j == 0 => f % KINDS, _ => r };
         let (tag, chunk) = snippet(rng, k, &opaque, enm.as_deref(), option);
         if !items.iter().any(|(t, _)| *t == tag) {
             items.push((tag, chunk));
@@ -108,7 +114,7 @@ pub fn snippet(rng: &mut Rng, k: usize, opaque: &str, enm: Option<&str>, option:
         7 => ("disable", format!(
             "    #[diplomat::opaque]\n    pub struct XtDis;\n    impl XtDis {{\n        #[diplomat::attr(*, disable)]\n        pub fn hidden(&self, v: u128) {{ unimplemented!() }}\n        pub fn shown(&self) -> {p} {{ unimplemented!() }}\n    }}\n    #[diplomat::attr(*, disable)]\n    pub struct XtGone {{ pub a: u8 }}\n")),
         8 => ("docs", format!(
-            "    /// Docs with `code`, a [`link`](https://example.com), <b>html</b> and */ a comment end.\n    ///\n    /// # Heading\n    ///\n    /// ```\n    /// let x = 1;\n    /// ```\n    #[diplomat::rust_link(core::option::Option, Enum)]\n    #[diplomat::rust_link(core::option::Option::is_some, FnInEnum, hidden)]\n    #[diplomat::opaque]\n    pub struct XtDoc;\n    impl XtDoc {{\n        /// Method docs: \"quotes\", \\backslash, $dollar, {{braces}}, @at.\n        #[diplomat::rust_link(core::option::Option::unwrap, FnInEnum, compact)]\n        pub fn documented(&self, v: {p}) -> {p} {{ unimplemented!() }}\n    }}\n    /// Enum docs\n    pub enum XtDocEnum {{\n        /// variant docs\n        A,\n        /** block */\n        B }}\n    /// Struct docs\n    pub struct XtDocSt {{\n        /// field docs\n        pub a: {p} }}\n")),
+            "    /// Docs with `code`, a [`link`](https://example.com), <b>html</b> and */ a comment end.\n    ///\n    /// # Heading\n    ///\n    /// ```\n    /// let x = 1;\n    /// ```\n    #[diplomat::rust_link(core::option::Option, Enum)]\n    #[diplomat::rust_link(core::option::Option::is_some, FnInEnum, hidden)]\n    #[diplomat::opaque]\n    pub struct XtDoc;\n    impl XtDoc {{\n        /// Method docs: \"quotes\", \\backslash, $dollar, {{braces}}, @at.\n        #[diplomat::rust_link(core::option::Option::unwrap, FnInEnum, compact)]\n        pub fn documented(&self, v: {p}) -> {p} {{ unimplemented!() }}\n    }}\n    /// Enum docs\n    pub enum XtDocEnum {{\n        /// variant docs\n        A,\n        /** block */\n        B }}\n    /// Struct docs\n    pub struct XtDocSt {{\n        /// field docs\n        #[diplomat::rust_link(core::option::Option, Enum)]\n        pub a: {p},\n        #[diplomat::attr(*, rename = \"renamed_b\")]\n        pub b: u8 }}\n    /// Out-struct docs\n    #[diplomat::out]\n    pub struct XtDocOut {{\n        /// field docs\n        #[diplomat::rust_link(core::option::Option::is_none, FnInEnum, hidden)]\n        pub a: {p},\n        #[diplomat::attr(*, rename = \"renamed_c\")]\n        pub c: u8 }}\n    impl XtDoc {{ pub fn out(&self) -> XtDocOut {{ unimplemented!() }} }}\n")),
         9 => ("demo-attrs", format!(
             "    #[diplomat::opaque]\n    #[diplomat::demo(custom_func = \"custom.mjs\")]\n    pub struct XtDemo;\n    impl XtDemo {{\n        #[diplomat::demo(default_constructor)]\n        pub fn make(#[diplomat::demo(input(label = \"Start value\"))] v: {p}) -> Box<XtDemo> {{ unimplemented!() }}\n        #[diplomat::demo(generate)]\n        pub fn show(&self, w: &mut DiplomatWrite) {{ unimplemented!() }}\n        pub fn with_other(&self, o: &{opaque}, s: &str, w: &mut DiplomatWrite) {{ unimplemented!() }}\n    }}\n    #[diplomat::opaque]\n    #[diplomat::demo(external)]\n    pub struct XtExt;\n    impl XtExt {{ pub fn use_it(&self, w: &mut DiplomatWrite) {{ unimplemented!() }} }}\n")),
         10 => ("error-types", format!(
@@ -119,6 +125,10 @@ pub fn snippet(rng: &mut Rng, k: usize, opaque: &str, enm: Option<&str>, option:
             ("same-name-namespaces", format!(
                 "    #[diplomat::attr(auto, namespace = \"{a}\")]\n    #[diplomat::attr(cpp, rename = \"Point\")]\n    pub struct XtGeoPoint {{ pub x: {p} }}\n    #[diplomat::attr(auto, namespace = \"{b}\")]\n    #[diplomat::attr(cpp, rename = \"Point\")]\n    pub struct XtScreenPoint {{ pub x: {p}, pub y: u8 }}\n    #[diplomat::opaque]\n    #[diplomat::attr(auto, namespace = \"{a}\")]\n    #[diplomat::attr(cpp, rename = \"Handle\")]\n    pub struct XtGeoHandle;\n    #[diplomat::opaque]\n    #[diplomat::attr(auto, namespace = \"{b}\")]\n    #[diplomat::attr(cpp, rename = \"Handle\")]\n    pub struct XtScreenHandle;\n    #[diplomat::opaque]\n    pub struct XtProjector;\n    impl XtProjector {{\n        pub fn project(&self, p: XtGeoPoint) -> XtScreenPoint {{ unimplemented!() }}\n        pub fn handles<'a>(&'a self, g: &'a XtGeoHandle, s: &'a XtScreenHandle) -> &'a XtScreenHandle {{ unimplemented!() }}\n    }}\n"))
         }
+        14 => ("enum-method-cycles", format!(
+            "    pub enum XtChan {{ R, G }}\n    pub struct XtPixel {{ pub c: XtChan, pub v: {p} }}\n    impl XtChan {{\n        pub fn of(px: XtPixel) -> XtChan {{ unimplemented!() }}\n        pub fn to_pixel(self) -> XtPixel {{ unimplemented!() }}\n    }}\n    pub enum XtUnit {{ M, S }}\n    pub enum XtScale {{ K, G2 }}\n    impl XtUnit {{ pub fn scale(self) -> XtScale {{ unimplemented!() }} }}\n    impl XtScale {{ pub fn unit(self, u: XtUnit) -> XtUnit {{ unimplemented!() }} }}\n")),
+        13 => ("case-colliding-names", format!(
+            "    pub struct XtRgb {{ pub a: {p} }}\n    pub struct XTRGB {{ pub a: {p} }}\n    #[diplomat::opaque]\n    pub struct Index;\n    #[diplomat::opaque]\n    pub struct XtUsesCase;\n    impl XtUsesCase {{\n        pub fn mix(&self, a: XtRgb, b: XTRGB, i: &Index) -> XTRGB {{ unimplemented!() }}\n    }}\n")),
         _ => ("struct-values", format!(
             "    #[diplomat::opaque]\n    pub struct XtUser;\n    impl XtUser {{\n        pub fn both(&self, s: XtPlain, t: XtNest) -> XtNest {{ unimplemented!() }}\n        pub fn opt(&self, s: XtPlain) -> Option<XtNest> {{ unimplemented!() }}\n        pub fn res(&self) -> Result<XtPlain, XtNest> {{ unimplemented!() }}\n    }}\n    pub struct XtPlain {{ pub a: {p}, pub b: bool }}\n    pub struct XtNest {{ pub x: u8, pub inner: XtPlain, pub y: {p} }}\n    impl XtNest {{ pub fn make(inner: XtPlain) -> XtNest {{ unimplemented!() }} }}\n")),
     }
